@@ -344,7 +344,7 @@ def legal(meta, ops, upto=None, two_monitors=False):
                     return None
                 live_sites.add(op[2])
                 owner[op[1]] = ('site', op[2])
-            elif k == 'rmexp':
+            elif k in ('rmexp', 'rmexpx'):
                 if op[1] not in m.exps:
                     return None
                 key = owner.pop(op[1], None)
